@@ -65,6 +65,8 @@ def main():
         mdir = os.path.join(sdir, name)
         if not os.path.isdir(mdir) or not name.startswith("mut"):
             continue
+        if len(sys.argv) > 4 and name not in sys.argv[4:]:
+            continue
         r = confirm(prop, wt, mdir)
         out.append(r)
         print(prop, name, "CONFIRMED" if r["ok"] else "REJECTED", r.get("suite_s"), r["log"][-1][:150] if not r["ok"] else "")
